@@ -176,9 +176,10 @@ func main() {
 		tasks = append(tasks, task{fmt.Sprintf("produce/%d", sh), func(h *H) { h.phaseProduce(sh, 4) }})
 	}
 	tasks = append(tasks,
-		task{"utf8", func(h *H) { h.phaseUTF8() }}, task{"limits/0", func(h *H) { h.phaseLimits(0, 4) }},
-		task{"limits/1", func(h *H) { h.phaseLimits(1, 4) }}, task{"limits/2", func(h *H) { h.phaseLimits(2, 4) }},
-		task{"limits/3", func(h *H) { h.phaseLimits(3, 4) }})
+		task{"utf8", func(h *H) { h.phaseUTF8() }}, task{"limits/0", func(h *H) { h.phaseLimits(0, 8) }})
+	for sh := 1; sh < 8; sh++ {
+		tasks = append(tasks, task{fmt.Sprintf("limits/%d", sh), func(h *H) { h.phaseLimits(sh, 8) }})
+	}
 	var mu sync.Mutex
 	timings := map[string]float64{}
 	var wg sync.WaitGroup
